@@ -155,6 +155,9 @@ def run(ctx):
             shutil.rmtree(root, ignore_errors=True)
         for h in range(n_evict):
             run_eviction(ctx, vh, h)
+        for h in range(6 if quick else 200):
+            query_before_scan(ctx, vh, h)
+        concurrent_query_vs_analysis(ctx, vh, 400 if quick else 20000)
     finally:
         vh.close()
 
@@ -206,3 +209,102 @@ def run_eviction(ctx, vh, h):
     for d in (A, B, Cc):
         vh.call(op="drop_db", db=d)
     shutil.rmtree(root, ignore_errors=True)
+
+
+def query_before_scan(ctx, vh, h):
+    """queries answered before the background scan has run (an editor asks for hints on a just-opened file) must not
+    change what the scan indexes afterwards: compare with a database that was only scanned"""
+    root = ctx.scratch(f"q{h}")
+    ws = gen.gen_workspace(root, ctx.rng, depth=ctx.rng.randint(1, 3), venv=False)
+    materialize(ws)
+    mods = [ws.abs(r) for r in sorted(ws.workspace_py())]
+    A = vh.new_db()
+    opened = ctx.rng.sample(mods, min(3, len(mods)))
+    for p in opened:
+        vh.call(op="analyze", db=A, path=p, text=ws.files[os.path.relpath(p, root)])
+    for p in mods:
+        vh.call(op="available", db=A, path=p)
+        if os.path.basename(p) == "conftest.py":
+            vh.call(op="imported", db=A, path=p)
+    vh.call(op="queries", db=A, files=mods)
+    vh.call(op="scan", db=A, root=root)
+    # the opened documents are re-sent afterwards in both databases so that the scan/open interplay (C10) cancels out
+    B = vh.new_db()
+    vh.call(op="scan", db=B, root=root)
+    for d_ in (A, B):
+        for p in opened:
+            vh.call(op="analyze", db=d_, path=p, text=ws.files[os.path.relpath(p, root)])
+    ra = vh.call(op="raw", db=A)
+    rb = vh.call(op="raw", db=B)
+    ctx.judged()
+    ia, ib = set(ra["file_definitions"]) | set(ra["usages"]), set(rb["file_definitions"]) | set(rb["usages"])
+    if ia != ib:
+        ctx.violation({"kind": "queries-before-scan-change-what-is-indexed", "missing": strip_root(sorted(ib - ia)[:4], root),
+                       "extra": strip_root(sorted(ia - ib)[:4], root)}, {"opened": strip_root(opened, root)}, files=ws.files)
+    else:
+        # same registration order is not guaranteed (parallel scan): compare order-insensitive projections only
+        from ..twins import raw_multiset
+        ma, mb = raw_multiset(strip_root(ra, root)), raw_multiset(strip_root(rb, root))
+        for k_ in ("file_cache",):
+            ma.pop(k_, None); mb.pop(k_, None)
+        dd = diff(ma, mb)
+        if dd:
+            ctx.violation({"kind": "queries-before-scan-change-the-index", "first_diff": dd[0][0]},
+                          {"diffs": [(p_, brief(x), brief(y)) for p_, x, y in dd[:4]]}, files=ws.files)
+    ctx.nontrivial(("query_before_scan", len(opened)))
+    vh.call(op="drop_db", db=A); vh.call(op="drop_db", db=B)
+    shutil.rmtree(root, ignore_errors=True)
+
+
+CQ_CONF1 = "import pytest\n\n\n@pytest.fixture\ndef db() -> \"Sqlite\":\n    return 1\n\n@pytest.fixture\ndef a(b):\n    return 1\n\n@pytest.fixture\ndef b():\n    return 1\n"
+CQ_CONF2 = "import pytest\n\n\n\n\n\n@pytest.fixture\ndef db() -> \"Postgres\":\n    return 2\n\n@pytest.fixture\ndef a(b):\n    return 1\n\n@pytest.fixture\ndef b(a):\n    return 1\n\n@pytest.fixture\ndef extra():\n    return 3\n"
+CQ_TEST = "def test_t(db, a):\n    pass\n"
+
+
+def concurrent_query_vs_analysis(ctx, vh, count):
+    """a query that computes (and memoises) an answer while an analysis of another file completes: after quiescence the
+    memoised answer must be the one a cold database gives.  Interleavings come from the serialising scheduler."""
+    D = "/vf_c07/pkg"
+    conf, test = f"{D}/conftest.py", f"{D}/test_t.py"
+    setup = [{"op": "analyze", "db": 0, "path": conf, "text": CQ_CONF1}, {"op": "analyze", "db": 0, "path": test, "text": CQ_TEST}]
+    threads = [[{"op": "analyze", "db": 0, "path": conf, "text": CQ_CONF2}],
+               [{"op": "available", "db": 0, "path": test}, {"op": "cycles", "db": 0}, {"op": "imported", "db": 0, "path": conf}],
+               [{"op": "cycles", "db": 0}, {"op": "available", "db": 0, "path": conf}]]
+    after = [{"op": "available", "db": 0, "path": test, "observe": True}, {"op": "cycles", "db": 0, "observe": True},
+             {"op": "available", "db": 0, "path": conf, "observe": True}]
+    ref = vh.call(op="sched_scenario", setup=setup, threads=threads, after=after, seed=0, count=1, sequential=[0, 1, 2])
+    want = {o["index"] for o in ref["outcomes"]}
+    for mode, pct in (("uniform", None), ("pct2", 2)):
+        r = vh.call(op="sched_scenario", setup=setup, threads=threads, after=after, seed=ctx.seed * 31 + 7, count=count, pct=pct, est=200,
+                    timeout=1800)
+        ctx.judged(count)
+        ctx.extra["concurrent_query_schedules"] = ctx.extra.get("concurrent_query_schedules", 0) + r["distinct_schedules"]
+        for o in r["outcomes"]:
+            obs = o["index"].split(";;OBS=", 1)[-1]
+            if o["index"] not in want:
+                # cycle lists are compared as normalised sets elsewhere; here the texts must match the cold answer
+                wobs = sorted(w.split(";;OBS=", 1)[-1] for w in want)[0]
+                if _norm_obs(obs) != _norm_obs(wobs):
+                    ctx.violation({"kind": "memoised-answer-after-concurrent-analysis-is-stale", "mode": mode},
+                                  {"seed": o["first_seed"], "count": o["count"], "observed": obs[:600], "cold": wobs[:600]})
+        ctx.nontrivial(("concurrent_query", mode, r["distinct_schedules"] > 10))
+
+
+def _norm_obs(obs):
+    import json as _j
+    out = []
+    for part in obs.split("|{"):
+        part = part if part.startswith("{") else "{" + part
+        try:
+            v = _j.loads(part)
+        except Exception:
+            out.append(part)
+            continue
+        if "cycles" in v:
+            from ..twins import norm_cycle_path
+            out.append(sorted(str(norm_cycle_path(c["path"])) for c in v["cycles"]))
+        elif "available" in v:
+            out.append(sorted((a["name"], a["file"], a["line"], a.get("return_type")) for a in v["available"]))
+        else:
+            out.append(v)
+    return out
